@@ -173,6 +173,25 @@ func (e *Encoder) stdlibCall(callee *ssa.Function, cm *ssa.CallCommon, args []Va
 		st.mem[key] = c.define("M_"+key, srt, fmt.Sprintf("(store %s (ite %s %s %s) %s)", A, inplace, sbase, newloc, arr))
 		res := c.define("app", "Slice", fmt.Sprintf("(ite %s (mkslice %s %s %s %s) (mkslice %s %s %s %s))", inplace, sbase, soff, nn, scap, newloc, soff, nn, newcap))
 		return Val{T: resT, S: res}, true
+	case n == "encoding/binary.ReadVarint" || n == "encoding/binary.ReadUvarint":
+		// arbitrary value, arbitrary effect on the heap (it drives the reader); the error is nil, one of
+		// the reader's errors or binary's own overflow error. Trusted: the reader only fails with io.EOF
+		// (true of sr.bReader, whose ReadByte contract is verified).
+		use()
+		e.havocAll(st, "call "+n+" (reads through io.ByteReader)")
+		v := e.freshVal("rv", resT)
+		e.assumeWT(v, pc, st)
+		if len(v.Tuple) == 2 {
+			eof, _ := c.constGlobal("io.EOF")
+			ueof, _ := c.constGlobal("io.ErrUnexpectedEOF")
+			if !c.declared["gerr_binary_overflow"] {
+				c.declared["gerr_binary_overflow"] = true
+				c.constGlobalsUsed = append(c.constGlobalsUsed, "gerr_binary_overflow")
+			}
+			er := v.Tuple[1].S
+			c.assume(implies(pc, fmt.Sprintf("(or (= %s iface_nil) (= %s %s) (= %s %s) (= %s gerr_binary_overflow))", er, er, eof, er, ueof, er)))
+		}
+		return v, true
 	case n == "math/bits.Len32" || n == "math/bits.Len64" || n == "math/bits.Len":
 		use()
 		w := 64
